@@ -13,6 +13,7 @@ import OtpVerif.Model.Ocra
 import OtpVerif.Model.Utils
 import OtpVerif.Model.Url
 import OtpVerif.Model.Rest
+import OtpVerif.Model.Wasm
 import OtpVerif.Spec.All
 
 open OtpVerif OtpVerif.Model
@@ -192,6 +193,66 @@ def run (O : HashOracle) (f : List String) : String :=
   | _ => "bad-op"
 end RestDrv
 
+namespace WasmDrv
+open OtpVerif.Model.Wasm
+
+def parseJs (t : String) : Option JsVal :=
+  if t = "u" then some .undefined else if t = "n" then some .null else if t = "huge" then some .hugeNum
+  else if t = "sym" then some .symbol else if t = "fn" then some .function else if t = "obj" then some .object
+  else if t = "big" then some .bigint
+  else match t.splitOn ":" with
+    | ["b", v] => some (.bool (v = "1"))
+    | ["i", z] => z.toInt?.map .int
+    | ["s", h] => (unhex h).map .str
+    | _ => none
+
+def showRes : JsRes → String
+  | .str s => "str:" ++ hex s
+  | .error => "err"
+  | .bool b => s!"bool:{b}"
+
+/-- what the *native* library answers for the same call, on the common domain (C20's reference) -/
+def nativeSpec (O : HashOracle) (fn : String) (args : List JsVal) : Option String :=
+  let inDom (z : Int) : Bool := 0 ≤ z && z ≤ 2 ^ 53
+  match fn, args with
+  | "generateHOTP", [.str s, .int c, .str d, .str a] =>
+    if s.isEmpty ∨ d.isEmpty ∨ a.isEmpty ∨ !inDom c then none else
+    (match generateHOTP O s c.toNat (some ⟨Rest.digitsFromStr d, 0, 0, Rest.algoFromStr a⟩) with
+      | .ok code => some ("str:" ++ hex code) | _ => some "err")
+  | "generateTOTP", [.str s, .int t, .str d, .str a, .int per] =>
+    if s.isEmpty ∨ d.isEmpty ∨ a.isEmpty ∨ !inDom t ∨ per < 1 ∨ per > 3600 then none else
+    (match generateTOTP O s t (some ⟨Rest.digitsFromStr d, per.toNat, 0, Rest.algoFromStr a⟩) with
+      | .ok code => some ("str:" ++ hex code) | _ => some "err")
+  | "validateHOTP", [.str s, .str code, .int c, .str d, .str a, .int k] =>
+    if s.isEmpty ∨ code.isEmpty ∨ d.isEmpty ∨ a.isEmpty ∨ !inDom c ∨ k < 0 ∨ k > 10 then none else
+    (match decodeSecret s, validateHOTP O s code c.toNat (some ⟨Rest.digitsFromStr d, 0, k.toNat, Rest.algoFromStr a⟩) with
+      | .ok _, .ok (v, _) => some s!"bool:{v}"
+      | _, _ => some "err")
+  | "validateTOTP", [.str s, .str code, .int t, .str d, .str a, .int k, .int per] =>
+    if s.isEmpty ∨ code.isEmpty ∨ d.isEmpty ∨ a.isEmpty ∨ !inDom t ∨ k < 0 ∨ k > 10 ∨ per < 1 ∨ per > 3600 ∨ t / per < k then none else
+    (match decodeSecret s, validateTOTP O s code t (some ⟨Rest.digitsFromStr d, per.toNat, k.toNat, Rest.algoFromStr a⟩) with
+      | .ok _, .ok (v, _) => some s!"bool:{v}"
+      | _, _ => some "err")
+  | _, _ => none
+
+def run (O : HashOracle) (f : List String) : String :=
+  match f with
+  | fn :: rest =>
+    match rest.mapM parseJs with
+    | some args =>
+      let r := if fn = "generateHOTP" then some (jsGenerateHOTP O args)
+        else if fn = "generateTOTP" then some (jsGenerateTOTP O args)
+        else if fn = "validateHOTP" then some (jsValidateHOTP O args)
+        else if fn = "validateTOTP" then some (jsValidateTOTP O args)
+        else if fn = "generateOTPURL" then some (jsGenerateOTPURL args)
+        else none
+      (match r with
+        | some r => (match nativeSpec O fn args with | some sp => showRes r ++ "\t" ++ sp | none => showRes r)
+        | none => "bad-op")
+    | none => "bad-op"
+  | _ => "bad-op"
+end WasmDrv
+
 def withSpec (m : String) (s : Option String) : String :=
   match s with
   | some s => m ++ "\t" ++ s
@@ -350,6 +411,11 @@ def step (line : String) : String :=
         | .panic => "panic")
     | _, _, _, _, _ => "bad-op"
   | "rest" :: rest => RestDrv.run O rest
+  | "js" :: rest => WasmDrv.run O rest
+  | ["wderive", k, c, d, a] =>
+    match unhex k, c.toNat?, d.toNat?, a.toNat? with
+    | some k, some c, some d, some a => withSpec (showOut (Wasm.deriveWasm O k c d a)) (Spec.Run.derive O k c d a)
+    | _, _, _, _ => "bad-op"
   | "urlg" :: rest => Url.Run.urlg rest
   | "urlp" :: rest => Url.Run.urlp rest
   | "std.trim" :: [s] => (match unhex s with | some s => "ok " ++ hex (Std.trimSpace s) | none => "bad-op")
